@@ -393,7 +393,19 @@ def run_seed(desc, M):
     out1 = gl.sample(size=5, seed=1)
     out2 = gl.sample(size=5, seed=1, include_latents=True)
     M.check(nodes[0] not in out1.columns and nodes[0] in out2.columns, "Gibbs samples contain latent columns only when requested", detail=f"{list(out1.columns)} / {list(out2.columns)}")
+    gen = list(GibbsSampling(model).generate_sample(size=3, seed=1, include_latents=False))
+    M.check(all(nodes[0] not in [st.var for st in row] for row in gen), "Gibbs generate_sample yields latent variables only when requested",
+            detail=str([[st.var for st in row] for row in gen[:1]]))
+    gen2 = list(GibbsSampling(model).generate_sample(size=3, seed=1, include_latents=True))
+    M.check(all(nodes[0] in [st.var for st in row] for row in gen2), "Gibbs generate_sample(include_latents=True) yields the latent variables")
     model.latents = set()
+    # rejection sampling without evidence is forward sampling: partial samples are honoured there as well
+    import pandas as pd
+    ps = pd.DataFrame({nodes[0]: [1] * 6})
+    fw = BayesianModelSampling(model).forward_sample(size=6, partial_samples=ps, seed=5, show_progress=False)
+    rj = BayesianModelSampling(model).rejection_sample([], size=6, partial_samples=ps, seed=5, show_progress=False)
+    M.check(list(fw[nodes[0]]) == [C.sname(d, nodes[0], 1)] * 6, "forward samples respect the partial samples", detail=str(list(fw[nodes[0]])))
+    M.check(list(rj[nodes[0]]) == [C.sname(d, nodes[0], 1)] * 6, "rejection samples with an empty evidence list respect the partial samples", detail=str(list(rj[nodes[0]])))
     g1 = GibbsSampling(model).sample(size=30, seed=3)
     g2 = GibbsSampling(model).sample(size=30, seed=3)
     M.check(g1.equals(g2), "a fixed seed reproduces the same Gibbs samples")
